@@ -354,7 +354,8 @@ class Tracker:
                     scoring_method(f, x.feature)
                     for x in candidates_feature_dict[track_id]
                 ]
-                oks = scoring_reduction(oks)  # scoring reduction
+                # A track with no candidates left in the window cannot be scored.
+                oks = scoring_reduction(oks) if len(oks) > 0 else np.nan
                 scores[f_idx][track_id] = oks
 
         return scores
@@ -388,7 +389,20 @@ class Tracker:
 
         matching_method = self._track_matching_methods[self.track_matching_method]
 
-        row_inds, col_inds = matching_method(cost_matrix)
+        # Pairs without a finite cost (e.g., tracks with no candidates left in the
+        # window) cannot be matched. Give them a finite cost worse than any combination
+        # of scored pairs so that the assignment problem stays feasible, and leave the
+        # instances of such pairs unmatched so that they start new tracks.
+        unscored = ~np.isfinite(cost_matrix)
+        solver_cost = cost_matrix
+        if unscored.any():
+            worst_cost = 2 * (np.abs(cost_matrix[~unscored]).sum() + 1)
+            solver_cost = np.where(unscored, worst_cost, cost_matrix)
+
+        row_inds, col_inds = matching_method(solver_cost)
+        is_scored = [not unscored[row, col] for row, col in zip(row_inds, col_inds)]
+        row_inds = [row for row, keep in zip(row_inds, is_scored) if keep]
+        col_inds = [col for col, keep in zip(col_inds, is_scored) if keep]
         tracking_scores = [
             -cost_matrix[row, col] for row, col in zip(row_inds, col_inds)
         ]
